@@ -9,23 +9,23 @@ EXTENDS Ref, Judge
 
 ReadOps == {"Read", "Sweep"}
 
-Consumed(e) == Len(e["in"]) - Len(e.r.rem)
-
-JRead(e) ==
-  LET in == e["in"]
-      ref == RefParse(e.fn, in, e)        \* [known, ok, consumed]
-      acc == e.r.ok
-      cls == e.fn \o "/" \o (IF "cls" \in DOMAIN e THEN e.cls ELSE "-")
+\* fn: entry point; in: input; rr: its recorded result [ok, ser, serok, rem, hasrem, acc]; e: the event (for extra arguments)
+JReadOne(fn, in, rr, e) ==
+  LET ref == RefParse(fn, in, e)        \* [known, ok, consumed, short]
+      acc == rr.ok
+      consumed == Len(in) - Len(rr.rem)
+      cls == fn \o "/" \o InputClass(fn, in, e)
   IN
-  << R("C01", "ser_eq_consumed", acc /\ e.r.serok /\ e.r.hasrem,
-       e.r.ser = Take(in, Consumed(e)), cls),
-     R("C01", "ser_is_prefix_of_input", acc /\ e.r.serok /\ ~e.r.hasrem,
-       IsPrefix(e.r.ser, in) /\ (ref.known /\ ref.ok => Len(e.r.ser) = ref.consumed), cls),
-     R("C03", "rem_is_suffix", acc /\ e.r.hasrem, IsSuffix(e.r.rem, in), cls),
-     R("C03", "consumes_declared_extent", acc /\ e.r.hasrem /\ ref.known /\ ref.ok,
-       Consumed(e) = ref.consumed, cls),
+  << R("C01", "ser_eq_consumed", acc /\ rr.serok /\ rr.hasrem,
+       rr.ser = Take(in, consumed), cls),
+     R("C01", "ser_is_prefix_of_input", acc /\ rr.serok /\ ~rr.hasrem,
+       IsPrefix(rr.ser, in) /\ (ref.known /\ ref.ok => Len(rr.ser) = ref.consumed), cls),
+     R("C03", "rem_is_suffix", acc /\ rr.hasrem, IsSuffix(rr.rem, in), cls),
+     R("C03", "consumes_declared_extent", acc /\ rr.hasrem /\ ref.known /\ ref.ok,
+       consumed = ref.consumed, cls),
      R("C02", "wellformed_accepted", ref.known /\ ref.ok, acc, cls),
      R("C03", "short_input_rejected", ref.known /\ ref.short, ~acc, cls) >>
+JRead(e) == JReadOne(e.fn, e["in"], e.r, e)
 
 (***************************************************************************)
 (* Sweep: runs[j] = <<kFrom, kTo, ok, serLen, remLen, serIsPrefix,         *)
@@ -48,7 +48,7 @@ JSweep(e) ==
       ref == RefParse(e.fn, in, e)
       k0 == FirstAccepted(runs, n)
       hasrem == RefHasRem(e.fn)
-      cls == e.fn \o "/" \o (IF "cls" \in DOMAIN e THEN e.cls ELSE "-")
+      cls == e.fn \o "/" \o InputClass(e.fn, in, e)
   IN
   << R("C03", "sweep_wellformed", TRUE, RunsPartition(runs, from, n), cls),
      \* every accepted prefix: serialisation is the consumed prefix, remainder a suffix, sizes add up
